@@ -1,6 +1,6 @@
 (* C09: non-vacuity examples for the hypotheses of the theorems in Props.v *)
 From Coq Require Import List Arith Bool PeanoNat.
-From PV Require Import C09.RavelLocal C09.Model C09.Proofs C09.Tokens.
+From PV Require Import C09.RavelLocal C09.Model C09.Proofs C09.Tokens C09.Proofs2.
 Import ListNotations.
 
 (* three variables of cardinalities 2, 3, 2; variable 2 has parents (1, 0) of UNEQUAL cardinality *)
@@ -34,3 +34,16 @@ Example ex_uai_sort : (* cards 2, 10, 3: "10" sorts before "2" *)
 Proof. vm_compute. reflexivity. Qed.
 Example ex_shape : shape_within 24 (Sci None true 0) /\ render (Sci None true 0) = [Dg; Ee; Minus; Dg; Dg].
 Proof. simpl. repeat split; auto with arith. Qed.
+
+(* a Markov network meeting wf_mn: two factors sharing variable 1 (cardinality 3) *)
+Definition ex_mn : mn nat :=
+  [ {| fscope := [(0, 2); (1, 3)]; fvalues := [1; 2; 3; 4; 5; 6] |}; {| fscope := [(1, 3)]; fvalues := [7; 8; 9] |} ].
+Example ex_wf_mn : wf_mn ex_mn.
+Proof.
+  split.
+  - intros v c1 c2 H1 H2. simpl in *. intuition congruence.
+  - intros f [E|[E|[]]]; subst f; reflexivity.
+Qed.
+Example ex_digits : digits 10 = [1; 0] /\ digits 2 = [2] /\ digits 0 = [0] /\ uai_key_leb (5, 10) (1, 2) = true
+                    /\ uai_key_leb (1, 2) (5, 10) = false.
+Proof. vm_compute. repeat split. Qed.
